@@ -38,7 +38,8 @@ ASSUMPTIONS = [
 ]
 EXPECTED_PROBES = ['lookup_must_hit', 'lookup_must_miss', 'lookup_indeterminate', 'announce_ok', 'stored_on_all_k_closest',
                    'paging_checked', 'paging_multi_page', 'faulty_node_lookup', 'faulty_value_lookup', 'jump_24h',
-                   'two_node_network', 'big_network', 'hostile_reply_seen', 'lookup_with_dead_nodes']
+                   'two_node_network', 'big_network', 'hostile_reply_seen', 'lookup_with_dead_nodes', 'reannounced',
+                   'must_hit_only_by_reannouncement', 'node_lookup_32']
 
 RPC_TIMEOUT = 5.0
 EXPIRY = 86400.0
@@ -70,6 +71,23 @@ def gen(run_seed, tier):
         r.shuffle(others)
         for i in others[:r.choice([n, n, max(1, n // 2)])]:
             ops.append({'op': 'lookup', 'node': i, 'blob': blob, 'wait': r.choice([0.0, 0.0, 2.0, 30.0])})
+        if r.random() < 0.35:
+            # re-announcement: the age that counts is that of the LATEST announcement
+            first_age = r.choice([20 * 3600, 23 * 3600, 12 * 3600])
+            ops.append({'op': 'jump', 'dt': first_age})
+            for a in announcers:
+                ops.append({'op': 'announce', 'node': a, 'blob': blob, 'wait': r.choice([0.0, 1.0])})
+            # now older than 24 h w.r.t. the first announcement, younger w.r.t. the latest
+            ops.append({'op': 'jump', 'dt': 86400 - first_age + r.choice([600, 3600, 3 * 3600])})
+            r.shuffle(others)
+            for i in others[:r.choice([n, max(1, n // 2), 3])]:
+                ops.append({'op': 'lookup', 'node': i, 'blob': blob, 'wait': r.choice([0.0, 0.0, 1.0])})
+            ops.append({'op': 'jump', 'dt': first_age + r.choice([600, 4000])})
+            r.shuffle(others)
+            for i in others[:r.choice([n, max(1, n // 2), 3])]:
+                ops.append({'op': 'lookup', 'node': i, 'blob': blob, 'wait': r.choice([0.0, 0.0, 1.0])})
+            sc['ops'] = ops
+            return sc
         continuous = big and n <= 8 and r.random() < 0.1
         age = r.choice([3600, 40000, 86400 - 900, 86400 - 400])
         ops.append({'op': 'sleep' if continuous else 'jump', 'dt': age})
@@ -115,7 +133,7 @@ def gen(run_seed, tier):
                     'dead': r.sample(range(n), r.choice([0, 1, n // 5, n // 2]))})
         blob = r.getrandbits(384)
         for _ in range(r.choice([3, 6, 10])):
-            kind = r.choice(['node', 'value', 'value', 'announce'])
+            kind = r.choice(['node', 'node32', 'node32', 'value', 'value', 'announce'])
             ops.append({'op': 'lookup' if kind != 'announce' else 'announce', 'kind': kind, 'node': r.randrange(n),
                         'blob': blob if r.random() < 0.6 else r.getrandbits(384), 'wait': r.choice([0.0, 1.0, 10.0, 100.0]),
                         'faulty': True})
@@ -166,7 +184,7 @@ def execute(scenario, keep_trace=False):
     return run.result()
 
 
-def run_dht(scenario, run, monitor=False, corrupt_factory=None, max_steps=30_000_000):
+def run_dht(scenario, run, monitor=False, corrupt_factory=None, max_steps=12_000_000):
     env.import_lbry()
     from lbry.utils import aclosing
     from simverif.core.dhtenv import DhtWorld, ThinAnnouncer, node_addr
@@ -209,7 +227,15 @@ def run_dht(scenario, run, monitor=False, corrupt_factory=None, max_steps=30_000
         before = world.requests_by_node.get(addr, 0)
         t0 = loop.time()
         task = loop.create_task(coro)
-        done, _ = await asyncio.wait([task], timeout=4000.0)
+        waited = 0.0
+        while True:
+            done, _ = await asyncio.wait([task], timeout=2.0)
+            waited += 2.0
+            sent = world.requests_by_node.get(addr, 0) - before
+            # a lookup that keeps issuing probes without ever finishing (e.g. re-probing contacts it has already
+            # asked) is as stuck as one that waits for ever; the finite network bounds the distinct contacts
+            if done or waited >= 4000.0 or sent > 1500 + 30 * n + 20 * len(world.fabricated) or world.net.storm:
+                break
         if not done:
             task.cancel()
             await asyncio.sleep(0)
@@ -242,7 +268,23 @@ def run_dht(scenario, run, monitor=False, corrupt_factory=None, max_steps=30_000
                     world.hostile[world.addr_of[i]] = scenario['hostile'][str(i)]
                 run.ev('join', i)
             elif kind == 'sleep':
-                await asyncio.sleep(op['dt'])
+                # the join / refresh lookups running in the background are iterative lookups too: one that never
+                # finishes shows as a node issuing find requests without end (a settled node sends a few hundred)
+                base = dict(world.requests_by_node)
+                left = float(op['dt'])
+                while left > 0 and not run.violations:
+                    await asyncio.sleep(min(2.0, left))
+                    left -= 2.0
+                    if world.net.storm:
+                        run.violation('C12.lookup_runaway', f'more than {world.net.cfg.get("max_in_flight", 20000)} datagrams in flight '
+                                      f'in a network of {n}: lookups spawn probes without bound', what='storm')
+                        break
+                    for addr, cnt in world.requests_by_node.items():
+                        if cnt - base.get(addr, 0) > 1500 + 30 * n + 100 * op['dt'] / 3600.0:
+                            run.violation('C12.lookup_runaway', f'node {world.index_of.get(addr)} issued {cnt - base.get(addr, 0)} find '
+                                          f'requests within {op["dt"] - max(left, 0):.0f}s of background operation in a network of {n}: '
+                                          f'an iterative lookup that does not terminate', what='background')
+                            break
                 run.ev('sleep', op['dt'], world.net.sent)
             elif kind == 'jump':
                 # clock jump at (near) quiescence: let in-flight datagrams land first
@@ -268,7 +310,7 @@ def run_dht(scenario, run, monitor=False, corrupt_factory=None, max_steps=30_000
                 key = (op['blob'] % (1 << 384)).to_bytes(48, 'big')
                 task, dur, reqs, t0 = await timed(node.announce_blob(key.hex()), i)
                 if task is None:
-                    run.violation('C12.lookup_stuck', f'announce_blob by node {i} did not finish within 4000 s', what='announce')
+                    run.violation('C12.lookup_stuck', f'announce_blob by node {i} did not finish (gave up after {dur:.0f}s and {reqs} find requests)', what='announce')
                     return
                 if task.exception() is not None:
                     run.ev('announce', i, 'raised', type(task.exception()).__name__)
@@ -341,10 +383,15 @@ def run_dht(scenario, run, monitor=False, corrupt_factory=None, max_steps=30_000
                     continue   # a dead node does not run lookups
                 if world.net.dead:
                     run.probes['lookup_with_dead_nodes'] += 1
-                if op.get('kind') == 'node':
-                    task, dur, reqs, t0 = await timed(node.peer_search(key), i)
+                if op.get('kind') in ('node', 'node32'):
+                    if op.get('kind') == 'node32':
+                        # the join path asks for up to 32 results; the default path hides all but the K closest
+                        task, dur, reqs, t0 = await timed(node.peer_search(key, count=32, max_results=32), i)
+                        run.probes['node_lookup_32'] += 1
+                    else:
+                        task, dur, reqs, t0 = await timed(node.peer_search(key), i)
                     if task is None:
-                        run.violation('C12.lookup_stuck', f'peer_search by node {i} did not finish within 4000 s', what='node')
+                        run.violation('C12.lookup_stuck', f'peer_search by node {i} did not finish (gave up after {dur:.0f}s and {reqs} find requests)', what='node')
                         return
                     if task.exception() is not None:
                         run.violation('C12.lookup_raised', f'peer_search raised {task.exception()!r}',
@@ -367,7 +414,7 @@ def run_dht(scenario, run, monitor=False, corrupt_factory=None, max_steps=30_000
                     continue
                 task, dur, reqs, t0 = await timed(value_lookup(node, key), i)
                 if task is None:
-                    run.violation('C12.lookup_stuck', f'value lookup by node {i} did not finish within 4000 s', what='value')
+                    run.violation('C12.lookup_stuck', f'value lookup by node {i} did not finish (gave up after {dur:.0f}s and {reqs} find requests)', what='value')
                     return
                 if task.exception() is not None:
                     run.violation('C12.lookup_raised', f'value lookup raised {task.exception()!r}',
@@ -389,23 +436,32 @@ def run_dht(scenario, run, monitor=False, corrupt_factory=None, max_steps=30_000
                     run.probes['faulty_value_lookup'] += 1
                     continue
                 t_end = loop.time()
+                by_announcer = {}
                 for rec in announces.get(op['blob'], []):
-                    a = rec['node']
+                    by_announcer.setdefault(rec['node'], []).append(rec)
+                for a, recs in sorted(by_announcer.items()):
                     if a == i:
                         continue
                     me = (world.addr_of[a][0], world.nodes[a].protocol.peer_port)
-                    if t_end < rec['start'] + EXPIRY - 60:
+                    latest = recs[-1]
+                    if len(recs) > 1:
+                        run.probes['reannounced'] += 1
+                    if t_end < latest['start'] + EXPIRY - 60:
+                        # younger than 24 h with respect to the latest announcement of that node
                         run.probes['lookup_must_hit'] += 1
+                        if len(recs) > 1 and t0 > recs[0]['end'] + EXPIRY:
+                            run.probes['must_hit_only_by_reannouncement'] += 1
                         if me not in got:
                             run.violation('C12.miss_before_expiry', f'value lookup by node {i} at age '
-                                          f'{t0 - rec["end"]:.0f}s did not return announcer node {a} '
-                                          f'(network of {len(started)}, found {len(got)})', n=len(started))
+                                          f'{t0 - latest["end"]:.0f}s (of the latest of {len(recs)} announcements) did not '
+                                          f'return announcer node {a} (network of {len(started)}, found {len(got)})',
+                                          n=len(started), reannounced=len(recs) > 1)
                             return
-                    elif t0 > rec['end'] + EXPIRY:
+                    elif all(t0 > rec['end'] + EXPIRY for rec in recs):
                         run.probes['lookup_must_miss'] += 1
                         if me in got:
                             run.violation('C12.hit_after_expiry', f'value lookup by node {i} at age '
-                                          f'{t0 - rec["end"]:.0f}s still returned announcer node {a}')
+                                          f'{t0 - latest["end"]:.0f}s still returned announcer node {a}')
                             return
                     else:
                         run.probes['lookup_indeterminate'] += 1
